@@ -1,16 +1,28 @@
-(* C14 — filling is idempotent.  Stage theorems (assembled statement pending): the two
-   facts the second pass relies on — a force-broken piece is a fixed point of
-   force-breaking, and words not wider than the limit pass through unchanged. *)
+(* C14 — filling is idempotent.
+   First-fit: empty indents, ASCII separator, built-in splitters (none / hyphen),
+   break_words on or off, every width, either line ending, every text.
+   Optimal-fit (reference oracle): additionally no line of the first result wider than the
+   width; proved for ESC-free text, cw SP = 1 and a positive per-line penalty.
+   The Unicode separator half of the property is checked on the implementation only: a
+   theorem would have to relate unicode-linebreak's answer on a line to its answer on the
+   paragraph containing it, which the abstract oracle does not provide. *)
 From TW Require Import Wrap.
-From TW Require Import SplitBreak.
+From TW Require Import Idempotent.
 
-Theorem C14_broken_piece_is_fixed_point : forall (cw : char -> N) lim wd p,
-  In p (break_apart cw lim wd) -> break_apart cw lim p = [p].
-Proof. exact break_apart_idem. Qed.
+Theorem C14_first_fit : forall cw alnum lbc custom_sp ofit o,
+  o_alg o = FirstFit -> o_ii o = [] -> o_si o = [] -> o_sep o = SepAscii -> o_spl o <> SplCustom ->
+  forall t r, fill cw alnum lbc custom_sp ofit o t = Some r ->
+              fill cw alnum lbc custom_sp ofit o r = Some r.
+Proof. exact fill_idempotent. Qed.
 
-Theorem C14_small_words_unchanged : forall (cw : char -> N) lim wd,
-  w_width wd <= lim -> break_words cw lim [wd] = [wd].
-Proof. exact break_words_small. Qed.
+Theorem C14_optimal_fit : forall (cw : char -> N) alnum lbc custom_sp o pen,
+  cw SP = 1 -> o_alg o = OptimalFit pen -> 0 < p_nline pen ->
+  o_ii o = [] -> o_si o = [] -> o_sep o = SepAscii -> o_spl o <> SplCustom ->
+  forall t r, Forall (fun c => c <> ESC) t ->
+    fill cw alnum lbc custom_sp ofit_dp o t = Some r ->
+    (forall l, In l (split_le (o_le o) r) -> dw cw l <= o_width o) ->
+    fill cw alnum lbc custom_sp ofit_dp o r = Some r.
+Proof. exact fill_idempotent_optimal. Qed.
 
-Print Assumptions C14_broken_piece_is_fixed_point.
-Print Assumptions C14_small_words_unchanged.
+Print Assumptions C14_first_fit.
+Print Assumptions C14_optimal_fit.
